@@ -6,7 +6,7 @@ import random
 from fractions import Fraction as F
 from . import gen, oracle, common
 
-VECTORS3 = [(1,), (1, 0, 0), (3, 2, 1), (2, 1), (1, 1, 1), (F(1, 2), F(1, 3)), (5, 3, 1, 1, 0), (2.5, 1.5, 0.5), (1, 1), (4, 1, 1)]
+VECTORS3 = [(1 + F(1, 10 ** 6), 1, 0), (F(1, 3000017), 0), (1,), (1, 0, 0), (3, 2, 1), (2, 1), (1, 1, 1), (F(1, 2), F(1, 3)), (5, 3, 1, 1, 0), (2.5, 1.5, 0.5), (1, 1), (4, 1, 1)]
 RULE = ("all profiles of <=2 distinct ballots (tied positions of any size, partial) over 3 candidates x weights {1,2,1/2} "
         "(thorough: 4 candidates, 3 ballots, weights {1,3,2/3}) x 10 score vectors (shorter/equal/longer than the candidate list, "
         "int/Fraction/float entries) + first_place_votes/borda_scores/mentions + Plurality/SNTV/Borda for every m; "
